@@ -43,7 +43,14 @@ def run(R):
         check_append(c, f, loop)
     with R.clause('D3', 'DISPATCH', floor=6, desc='string -> send once; callable(locals()) -> send / stop; else TypeError') as c:
         check_dispatch(c, f, loop)
-    with R.clause('D4', 'ORDER', floor=1, desc='close() before exitstatus') as c:
+    with R.clause('D4', 'ORDER', floor=2, desc='close() before exitstatus; close() refreshes the status after closing the pty') as c:
+        sc = repo.func('pty_spawn:spawn.close')
+        gs = sc.cfg
+        cl_ = cfg_nodes_with_call(sc, lambda k: callee_last(k) == 'close' and (ctext(k.func.value, sc) or '').endswith('ptyproc'))
+        al_ = cfg_nodes_with_call(sc, lambda k: callee_last(k) == 'isalive' and ctext(k.func.value, sc) == 'self')
+        okc = len(cl_) == 1 and len(al_) >= 1 and any(gs.dominated_by(a[0], {cl_[0][0]})[0] for a in al_)
+        c.check(okc, sc, al_[0][1] if al_ else None, 'spawn.close() reads the child\'s status AFTER closing the pty (a child that exits because of the hang-up '
+                'must have its real exit code reported by run(withexitstatus=True))', tag='status-after-close')
         closes = [n for n, k in cfg_nodes_with_call(f, lambda k: callee_last(k) == 'close')]
         for n in g.nodes:
             if n.ast is not None and n.kind in ('stmt', 'test') and any(isinstance(x, ast.Attribute) and x.attr == 'exitstatus' for x in ast.walk(n.ast)):
@@ -58,10 +65,13 @@ def check_split(c, f):
     ev = 'events'
     pats = [n for n in g.nodes if n.kind == 'stmt' and isinstance(n.ast, ast.Assign) and 'patterns' in assigned_names(n.ast)]
     resp = [n for n in g.nodes if n.kind == 'stmt' and isinstance(n.ast, ast.Assign) and 'responses' in assigned_names(n.ast)]
-    c.need(len(pats) == 3 and len(resp) == 3, 'run(): expected 3 assignments each to patterns/responses, found %d/%d' % (len(pats), len(resp)))
     tl = [t for t in g.nodes if t.kind == 'test' and norm(t.ast) == 'isinstance(events, list)']
     td = [t for t in g.nodes if t.kind == 'test' and norm(t.ast) == 'isinstance(events, dict)']
     c.need(len(tl) == 1 and len(td) == 1, 'run(): isinstance tests on events not found')
+    rebinds = [n for n in g.nodes if n.kind == 'stmt' and isinstance(n.ast, ast.Assign) and ev in assigned_names(n.ast)]
+    c.check(not rebinds, f, rebinds[0].ast if rebinds else None, 'the event table is used as given (a list is not converted: duplicates and their priority order must survive)',
+            witness=norm(rebinds[0].ast) if rebinds else None, kind='ast', tag='events-as-given')
+    c.need(len(pats) >= 2 and len(resp) >= 2, 'run(): assignments to patterns/responses not found (%d/%d)' % (len(pats), len(resp)))
     lr = guard_region(g, tl[0], 'true')
     lp = [n for n in pats if n in lr]
     lq = [n for n in resp if n in lr]
@@ -220,6 +230,8 @@ def check_consumed(c, f, loop):
 
 
 MUTANTS = [
+    ('list-via-dict', 'run', "    if isinstance(events, list):\n        patterns= [x for x,y in events]\n        responses = [y for x,y in events]\n    elif isinstance(events, dict):", "    if isinstance(events, list):\n        events = dict(events)\n    if isinstance(events, dict):", 'D1'),
+    ('close-status-first', 'pty_spawn', "        self.flush()\n        with _wrap_ptyprocess_err():\n            # PtyProcessError may be raised if it is not possible to terminate\n            # the child.\n            self.ptyproc.close(force=force)\n        self.isalive()  # Update exit status from ptyproc", "        self.flush()\n        self.isalive()  # Update exit status from ptyproc\n        with _wrap_ptyprocess_err():\n            # PtyProcessError may be raised if it is not possible to terminate\n            # the child.\n            self.ptyproc.close(force=force)", 'D4'),
     ('append-twice', 'run', "                child_result_list.append(child.before + child.after)\n", "                child_result_list.append(child.before + child.after)\n                child_result_list.append(child.after)\n", 'D2'),
     ('append-before-only', 'run', "                child_result_list.append(child.before + child.after)\n", "                child_result_list.append(child.before)\n", 'D2'),
     ('eof-handler-no-append', 'run', "        except EOF:\n            child_result_list.append(child.before)\n            break", "        except EOF:\n            break", 'D2'),
